@@ -107,9 +107,13 @@ impl Selector {
             let data = unsafe { &mut *(event.data() as *mut EventData) };
             let events = event.events().bits() as usize;
             // info!("select got event, data={:p}, events={}", data, events);
+            #[cfg(may_verif)]
+            crate::verif::pt("sel.or_flag", crate::verif::addr(&*data), events, 0);
             data.io_flag.fetch_or(events, Ordering::Release);
 
             // first check the atomic co, this may be grab by the worker first
+            #[cfg(may_verif)]
+            crate::verif::pt("sel.take", crate::verif::addr(&*data), 0, 0);
             let co = match data.co.take() {
                 Some(co) => co,
                 None => continue,
